@@ -112,7 +112,7 @@ def profile(prop, g):
     elif prop == 'C04':
         kw.update(layout=2, max_items=5, same_line=g.choice([0, 0.25]))
     elif prop == 'C05':
-        kw.update(layout=2, p_doc=0.3, weights={'generic': 4, 'set': 2, 'blk': 2})
+        kw.update(layout=2, p_doc=0.4, weights={'generic': 4, 'set': 3, 'blk': 2}, p_bracketish=0.4)
     elif prop == 'C07':
         kw.update(p_doc=0.8, layout=1, weights={'class': 2, 'member': 2, 'attr': 1.5})
     return kw, cfg
